@@ -7,36 +7,35 @@ namespace AgpTpf
 
 /-- the regex the tokeniser below was written for; a different regex in the source breaks the build
     (then the correspondence on enumerated names decides). -/
-theorem natKeyRegex_expected : Gen.natKeyRegex = "(I+V?|\\d+)" := rfl
+theorem natKeyRegex_expected : Gen.natKeyRegex = "(IV|I{1,3}|\\d+)" := rfl
 
-/-- `re.split(r"(I+V?|\d+)", name)` = `first, (match, text)*`.  Matches are exactly the maximal runs of
-    `I` (extended by one directly following `V`) and the maximal runs of ASCII digits, so the split can be
-    computed from the right, one character at a time. -/
+/-- `re.split(r"(IV|I{1,3}|\d+)", name)` = `first, (match, text)*`. -/
 structure Toks where
   first : Str := []
   rest : List (Str × Str) := []
   deriving DecidableEq, Repr, Inhabited
 
-def consTok (c : Char) (t : Toks) : Toks :=
+/-- put a complete match in front of an already split remainder -/
+def pushMatch (m : Str) (t : Toks) : Toks := { first := [], rest := (m, t.first) :: t.rest }
+
+/-- one non-`I` character in front of an already split remainder: digits extend a directly following
+    digit match (maximal runs), anything else is text -/
+def consChar (c : Char) (t : Toks) : Toks :=
   if isDigit c then
     match t.first, t.rest with
-    | [], (m, tx) :: r =>
-      match m with
-      | d :: _ => if isDigit d then { first := [], rest := (c :: m, tx) :: r }
-                  else { first := [], rest := ([c], []) :: (m, tx) :: r }
-      | [] => { first := [], rest := ([c], []) :: (m, tx) :: r }
-    | f, r => { first := [], rest := ([c], f) :: r }
-  else if c = 'I' then
-    match t.first, t.rest with
-    | [], (m, tx) :: r =>
-      match m with
-      | 'I' :: _ => { first := [], rest := (c :: m, tx) :: r }
-      | _ => { first := [], rest := ([c], []) :: (m, tx) :: r }
-    | 'V' :: f, r => { first := [], rest := ([c, 'V'], f) :: r }
-    | f, r => { first := [], rest := ([c], f) :: r }
+    | [], (d :: m, tx) :: r => if isDigit d then { first := [], rest := (c :: d :: m, tx) :: r }
+                               else pushMatch [c] t
+    | _, _ => pushMatch [c] t
   else { t with first := c :: t.first }
 
-def natTokens (s : Str) : Toks := s.foldr consTok {}
+/-- leftmost match, alternatives in order: `IV`, then up to three `I`, then a digit run -/
+def natTokens : Str → Toks
+  | [] => {}
+  | 'I' :: 'V' :: r => pushMatch ['I', 'V'] (natTokens r)
+  | 'I' :: 'I' :: 'I' :: r => pushMatch ['I', 'I', 'I'] (natTokens r)
+  | 'I' :: 'I' :: r => pushMatch ['I', 'I'] (natTokens r)
+  | 'I' :: r => pushMatch ['I'] (natTokens r)
+  | c :: r => consChar c (natTokens r)
 
 /-- `NEMATODE_CHR_INT.get(x) or int(x)` -/
 def tokenValue (m : Str) : R Int :=
